@@ -1718,6 +1718,9 @@ def _custom_nanquantile(
     # The main advantage is that we get rid of the overhead, removing GIL blockage
     # and just generally making things faster.
 
+    # same result dtype as np.nanquantile (the interpolation below is done in float64)
+    dtype = np.nanquantile(np.zeros(1, dtype=a.dtype), q.dtype.type(0.5)).dtype
+
     sorted_arr = np.sort(a, axis=-1)
     indexers = _span_indexers(a)
     nr_quantiles = len(indexers[0])
@@ -1745,7 +1748,9 @@ def _custom_nanquantile(
         factor_lower = higher_value - i
 
         quantiles.append(
-            (higher * factor_higher + lower * factor_lower).reshape(*reshape_shapes)
+            (higher * factor_higher + lower * factor_lower)
+            .astype(dtype, copy=False)
+            .reshape(*reshape_shapes)
         )
 
     if is_scalar:
